@@ -414,6 +414,13 @@ class H:
         return bool(w) and w[0]['v'] == call.get('val')
 
     @staticmethod
+    def panic_file(e):
+        """source file (relative to rust/) of the panic an outcome string names, '' if it is not a panic"""
+        o = str(e.get('o') or e.get('res') or '')
+        m = re.match(r'(?:obs-)?panic:(\S+?):(\d+) ', o)
+        return m.group(1) if m else ''
+
+    @staticmethod
     def has_combining(e):
         """some text object of the event's view holds a combining mark / ZWJ / variation selector"""
         views = [e.get('obs', {}).get('view') or [], e.get('view') or []]
